@@ -114,7 +114,7 @@ where
             std::mem::take(&mut g.events),
             std::mem::take(&mut g.schedule),
             g.overrun,
-            g.strategy.as_ref().map(|s| s.summary()).unwrap_or(json!({"plain": 1})),
+            g.strategy.as_ref().map(|s| s.summary()).unwrap_or(json!({"segments": 0, "reached": 0, "missed": 0, "first_missed": -1, "solo_max": 0})),
         )
     });
     {
